@@ -100,10 +100,11 @@ class Run:
         self.cfg, self.d, self.tag = cfg, d, tag
         self.events, self.lock = [], threading.Lock()
         self.stop_reader = False
-        self.peer_socks = {p: free_udp() for p in cfg["peers"]}
+        # (nodes a later version of the config file may name have their sockets from the start)
+        self.peer_socks = {p: free_udp() for p in cfg["peers"] + cfg.get("later", [])}
         self.foreign_sock = free_udp()
         self.me_port = node_port()
-        self.sync = {p: 20000 + i for i, p in enumerate([cfg["me"]] + cfg["peers"])}
+        self.sync = {p: 20000 + i for i, p in enumerate([cfg["me"]] + cfg["peers"] + cfg.get("later", []))}
         self.sync_rev = {"127.0.0.1:%d" % v: k for k, v in self.sync.items()}
         self.dir = os.path.join(d, "orch_" + tag)
         os.makedirs(self.dir, exist_ok=True)
@@ -112,22 +113,16 @@ class Run:
         stub = os.path.join(self.dir, "worterbuch-stub")
         open(stub, "w").write(STUB)
         os.chmod(stub, os.stat(stub).st_mode | stat.S_IEXEC)
-        nodes = [{"nodeId": cfg["me"], "address": "127.0.0.1", "raftPort": self.me_port, "syncPort": self.sync[cfg["me"]],
-                  "priority": cfg["prio"], "suicideOnSplitBrain": cfg["suicide"]}]
-        for p in cfg["peers"]:
-            nodes.append({"nodeId": p, "address": "127.0.0.1", "raftPort": self.peer_socks[p].getsockname()[1],
-                          "syncPort": self.sync[p], "priority": 100})
-        conf = {"nodes": nodes}
-        if cfg["quorum"] != -1:
-            conf["quorum"] = cfg["quorum"]
-        cpath = os.path.join(self.dir, "config.yaml")
-        open(cpath, "w").write(json.dumps(conf))          # JSON is YAML
+        cpath = self.cpath = os.path.join(self.dir, "config.yaml")
+        self.write_config(cfg["peers"])
         env = dict(os.environ, WBSTUB_LOG=self.stub_log, WORTERBUCH_LOG="warn")
         self.errlog = open(os.path.join(self.dir, "orch.err"), "w")
         self.proc = subprocess.Popen(
             [os.path.join(vlib.HARNESS, "target", "debug", "wborch"), cfg["me"], "--config-path", cpath,
              "--heartbeat", str(HEARTBEAT_MS), "--timeout", str(TIMEOUT_MS), "--worterbuch-executable", stub,
-             "--stats-port", str(10000 + (self.me_port - 20000)), "--data-dir", os.path.join(self.dir, "data"), "--config-scan-interval", "3600"],
+             "--stats-port", str(10000 + (self.me_port - 20000)), "--data-dir", os.path.join(self.dir, "data"),
+             # the config file watcher looks at the file once per interval (whole seconds): 1 s where the scenario rewrites it
+             "--config-scan-interval", "1" if cfg.get("later") is not None and cfg.get("dynamic") else "3600"],
             cwd=self.dir, env=env, stdout=self.errlog, stderr=self.errlog, start_new_session=True)
         self.stub_pos = 0
         self.reader = threading.Thread(target=self.read_loop, daemon=True)
@@ -136,6 +131,25 @@ class Run:
     def log(self, ev):
         with self.lock:
             self.events.append(ev)
+
+    def write_config(self, peers):
+        cfg = self.cfg
+        nodes = [{"nodeId": cfg["me"], "address": "127.0.0.1", "raftPort": self.me_port, "syncPort": self.sync[cfg["me"]],
+                  "priority": cfg["prio"], "suicideOnSplitBrain": cfg["suicide"]}]
+        for p in peers:
+            nodes.append({"nodeId": p, "address": "127.0.0.1", "raftPort": self.peer_socks[p].getsockname()[1],
+                          "syncPort": self.sync[p], "priority": 100})
+        conf = {"nodes": nodes}
+        if cfg["quorum"] != -1:
+            conf["quorum"] = cfg["quorum"]
+        tmp = self.cpath + ".tmp"
+        open(tmp, "w").write(json.dumps(conf))          # JSON is YAML
+        os.replace(tmp, self.cpath)                      # (never a half-written file)
+
+    def rewrite(self, peers):
+        """a new version of the config file; logged BEFORE the file changes (the watcher may see it at once)"""
+        self.log({"e": "rewrite", "peers": list(peers)})
+        self.write_config(peers)
 
     def poll_once(self, timeout):
         socks = list(self.peer_socks.values()) + [self.foreign_sock]
@@ -230,6 +244,8 @@ def run_scenario(cfg, steps, d, tag):
             time.sleep(st["ms"] / 1000.0)
         elif do == "send":
             run.send(st["from"], st["m"])
+        elif do == "rewrite":
+            run.rewrite(st["peers"])
         elif do == "await":
             what = st["what"]
             with run.lock:
@@ -255,6 +271,11 @@ def gen_configs(rnd, tier):
         peers = ["n%d" % (k + 2) for k in range(size - 1)]
         out.append({"me": "n1", "peers": peers, "foreign": ["x8", "x9"], "quorum": quorum, "prio": 100,
                     "suicide": rnd.random() < 0.7})
+    # configurations whose file is rewritten at run time (no configured quorum: the default follows the node count)
+    for size in ([2, 3, 4] if tier == "quick" else [1, 2, 3, 3, 4, 5, 6]):
+        peers = ["n%d" % (k + 2) for k in range(size - 1)]
+        out.append({"me": "n1", "peers": peers, "later": ["m1", "m2"], "dynamic": True, "foreign": ["x8", "x9"], "quorum": -1, "prio": 100,
+                    "suicide": rnd.random() < 0.7})
     return out
 
 
@@ -262,10 +283,25 @@ def gen_steps(rnd, cfg):
     """scripted peer behaviour: silent peers, duplicated / late / foreign votes, competing candidates of
     higher / equal / lower priority, heartbeats of members, of non-members and of the node itself"""
     peers, foreign, me = cfg["peers"], cfg["foreign"], cfg["me"]
-    anyone = peers + foreign + [me]
+    later = cfg.get("later", []) if cfg.get("dynamic") else []
+    anyone = peers + foreign + [me] + later
     steps = []
+    rewritten = False
     for _ in range(rnd.randint(3, 8)):
         r = rnd.random()
+        if later and not rewritten and rnd.random() < 0.3:
+            # ONE new version of the config file per process (a second one within the same scan interval would replace
+            # the first unseen): peers removed and / or added; then votes and heartbeats of old and new members while and
+            # after the watcher picks it up (scan interval 1 s)
+            rewritten = True
+            keep = [p for p in peers if rnd.random() < 0.6]
+            new = keep + [p for p in later if rnd.random() < 0.5]
+            if sorted(new) == sorted(peers):
+                new = peers + [later[0]]
+            steps.append({"do": "rewrite", "peers": new})
+            peers = sorted(set(peers + new))          # whoever was or is a member keeps talking
+            steps.append({"do": "sleep", "ms": rnd.choice([0, 300, 700, 1100, 1400])})
+            continue
         if r < 0.35:
             # wait until the node asks for votes, then answer in some way
             steps.append({"do": "await", "what": "voteReq", "ms": 1200})
@@ -306,7 +342,7 @@ def gen_steps(rnd, cfg):
             steps.append({"do": "send", "from": h, "m": {"t": "hbResp", "id": h}})
         else:
             steps.append({"do": "sleep", "ms": rnd.choice([50, 250, 450, 700])})
-    steps.append({"do": "sleep", "ms": rnd.choice([100, 300, 500])})
+    steps.append({"do": "sleep", "ms": rnd.choice([100, 300, 500]) + (1000 if rewritten and rnd.random() < 0.7 else 0)})
     return steps
 
 
